@@ -81,24 +81,27 @@ def run(ctx):
             dps = ctx.fn(INS + ".draw_posterior_samples")
             wcall = [c for c in walk_no_nested(dps.node) if isinstance(c, ast.Call) and call_name(c) == "draw_posterior_samples"]
             wname = next((src(k.value) for c in wcall for k in c.keywords if k.arg == "log_w"), "log_w")
-            lw = [n for n in walk_no_nested(dps.node) if isinstance(n, ast.Assign) and src(n.targets[0]) == wname]
-            dpa = FA(dps)
+            # read from the path summaries of the method: on the path taken in this configuration, the expression finally
+            # bound to the name handed to draw_posterior_samples as log_w (the state may be selected first and read afterwards)
+            from ..summ import summarise as _summ05
+
             pick = None
-            for a in lw:
-                facts = [(src(e), t) for e, t in guard_facts(dpa, dpa.cfg.id_of(a))]
-                # use_final_samples = redraw in run_importance_nested_sampler
-                cond = [e for e, t in dpa.guards(dpa.cfg.id_of(a)) if isinstance(e, ast.expr)]
-                taken = None
-                for e, t in dpa.guards(dpa.cfg.id_of(a)):
-                    while isinstance(e, ast.UnaryOp) and isinstance(e.op, ast.Not):
-                        e, t = e.operand, not t
-                    if isinstance(e, ast.BoolOp) and isinstance(e.op, ast.And) and len(e.values) == 2:
-                        val = redraw and pv.truth(e.values[1], dps, "self", ins)
-                        taken = (val == t)
-                if taken:
-                    pick = a
+            if isinstance(wname, str) and wname.isidentifier():
+                for pa_ in _summ05(dps.node):
+                    if pa_.end == "raise" or wname not in pa_.env:
+                        continue
+                    taken = None
+                    for e, t in pa_.guards:
+                        while isinstance(e, ast.UnaryOp) and isinstance(e.op, ast.Not):
+                            e, t = e.operand, not t
+                        if isinstance(e, ast.BoolOp) and isinstance(e.op, ast.And) and len(e.values) == 2 and "use_final_samples" in src(e):
+                            # use_final_samples = redraw in run_importance_nested_sampler
+                            val = redraw and pv.truth(e.values[1], dps, "self", ins)
+                            taken = (val == t)
+                    if taken:
+                        pick = pa_.env[wname]
             if pick is not None:
-                w_path = pv.eval(pick.value, dps)
+                w_path = pv.eval(pick, dps)
                 d_path = pv.eval(ins_dict["log_posterior_weights"], ins_dict_f)
                 ctx.ob("R-PROV", "C05.1", ins_dict_f, f"[{cfg}] result['log_posterior_weights'] are the weights the posterior samples were drawn with", w_path == d_path and "None" not in d_path, f"dict: {d_path} ; draw: {w_path}")
             if not redraw:
@@ -191,7 +194,12 @@ def run(ctx):
     lf = ctx.fn("nessai.evidence:log_evidence_from_ins_samples")
     ctx.ob("R-SIB", "C05.3", lf, "the one-pass estimator is the same expression: logsumexp(logL + logW) - log(len(samples))", len(find_stmt("return logsumexp(samples['logL'] + samples['logW']) - log(len(samples))", lf.node)) == 1, "")
     pw = prog.cls(ST).methods["log_posterior_weights"]
-    ctx.ob("R-SIB", "C05.3", pw, "log posterior weights = (logL + logW) - log Z", len(find_stmt("return self._weights - self.logZ", pw.node)) == 1, "")
+    # (a getter that memoises its value is the plain getter as long as every writer of what the value depends on resets
+    # the cache - sa/rules/memo.py)
+    from ..rules import memo as _memo
+
+    E_pw, slot_pw, prob_pw = _memo.value_of(prog, pw)
+    ctx.ob("R-SIB", "C05.3", pw, "log posterior weights = (logL + logW) - log Z", E_pw is not None and canon(E_pw) == "self._weights - self.logZ" and not prob_pw, f"value `{src(E_pw) if E_pw is not None else None}`" + (f", cached in self.{slot_pw}" if slot_pw else "") + (f"; {prob_pw[0]}" if prob_pw else ""))
     reports = []
     chk = DegChecker({"self._weights": 1, "self._weights_ns": 1, "self._weights_lp": 1, "self._logZ": 1, "self._n": 0, "self.logZ": 1}, set(), lambda n, m: reports.append(m))
     d_ue = chk.function(ue.node, {"nested_samples": Fraction(1), "live_points": Fraction(1)})
